@@ -143,6 +143,11 @@ pub struct Case {
     /// picture (identity, transmission state) may be inherited by a window with other content
     #[serde(default)]
     pub late_windows: bool,
+    /// (with `shared_backing`) the windows span the full width of the backing picture (only
+    /// the images of maximal width take part): contiguous row ranges of one buffer that differ
+    /// in nothing but their start offset
+    #[serde(default)]
+    pub full_width_windows: bool,
 }
 
 // ---------------------------------------------------------------------------------------
@@ -1200,6 +1205,14 @@ pub fn check_case(case: &Case) -> Outcome {
         // regions stacked vertically in one picture, each with its own padding
         let mut regions: Vec<(usize, usize, usize, &Content)> = Vec::new();
         let (mut rows, mut width) = (0usize, 1usize);
+        let wmax = case
+            .imgs
+            .iter()
+            .map(|spec| &case.contents[spec.content.min(case.contents.len() - 1)])
+            .filter(|c| !c.is_empty())
+            .map(|c| c.w)
+            .max()
+            .unwrap_or(0);
         for (i, spec) in case.imgs.iter().enumerate() {
             let c = &case.contents[spec.content.min(case.contents.len() - 1)];
             if c.is_empty() {
@@ -1209,6 +1222,15 @@ pub fn check_case(case: &Case) -> Outcome {
                 Build::Crop { top, left, .. } | Build::View { top, left, .. } => (top, left),
                 _ => (1, i),
             };
+            if case.full_width_windows {
+                if c.w != wmax {
+                    continue;
+                }
+                regions.push((i, rows + top, 0, c));
+                rows += top + c.h;
+                width = wmax;
+                continue;
+            }
             regions.push((i, rows + top, left, c));
             rows += top + c.h;
             width = width.max(left + c.w + 1);
@@ -1246,6 +1268,9 @@ pub fn check_case(case: &Case) -> Outcome {
                 shared[*i] = Some(guard_val(|| backing.crop(*r0..r0 + c.h, *left..left + c.w))?);
             }
             windows = true;
+            if case.full_width_windows {
+                run.label("img:full-width-windows");
+            }
         }
     }
     for (i, spec) in case.imgs.iter().enumerate() {
@@ -1655,9 +1680,10 @@ impl Property for C11 {
                     0u8..48,
                     proptest::bool::weighted(0.3),
                     any::<bool>(),
+                    proptest::bool::weighted(0.4),
                 )
             })
-            .prop_map(|(quiet, mut contents, imgs, poss, evs, tweak, shared_backing, late_windows)| {
+            .prop_map(|(quiet, mut contents, imgs, poss, evs, tweak, shared_backing, late_windows, full_width)| {
                 // contents that random pixels cannot reach (found once by an offline search
                 // over the 64-bit FNV content hash reduced mod 2^32-1)
                 let last = contents.len() - 1;
@@ -1671,6 +1697,14 @@ impl Property for C11 {
                     1 if last > 0 => {
                         contents[0] = one(COLLIDING_PIXELS.0);
                         contents[last] = one(COLLIDING_PIXELS.1);
+                    }
+                    5..=9 if last > 0 => {
+                        // same shape, other pixels
+                        contents[last] = Content {
+                            h: contents[0].h,
+                            w: contents[0].w,
+                            pix: Pix::Noise(0x5eed_0000 + tweak as u64),
+                        };
                     }
                     2..=4 if last > 0 => {
                         // same bytes, other shape
@@ -1689,6 +1723,7 @@ impl Property for C11 {
                     poss,
                     evs,
                     late_windows: shared_backing && late_windows,
+                    full_width_windows: shared_backing && full_width,
                     shared_backing,
                 }
             })
@@ -1720,7 +1755,7 @@ impl Property for C11 {
     }
 
     fn rule(&self) -> String {
-        "generated: 1-3 image contents (sizes 0x0..48x48 incl. empty, 1x1 and sizes whose base64 payload is 4096k-4, 4096k, 4096k+4 bytes for k=1,2,3; solid / explicit / 00-FF / byte-ramp / noise pixels; rarely also a 1x1 content that hashes to image id 0 / a pair of 1x1 contents with equal image id / the same bytes in another shape) realised as 1-4 Images (owned, Image::new, crop, view, strided + column-major from_parts, transposed; several Images may share a content with different Arcs; in 30% of the cases all non-empty images are windows cropped out of one backing Image object, in half of those only after that picture has itself been drawn on the handler), 1-3 positions below 65536 biased to (0,0), row 0, column 0 and 65535, and a history of 1-15 events Draw / Erase(at|all) / response(OK|error, for a drawn image with a placement id the handler used, or arbitrary numbers) on one KittyImageHandler (plain or quiet). \
+        "generated: 1-3 image contents (sizes 0x0..48x48 incl. empty, 1x1 and sizes whose base64 payload is 4096k-4, 4096k, 4096k+4 bytes for k=1,2,3; solid / explicit / 00-FF / byte-ramp / noise pixels; rarely also a 1x1 content that hashes to image id 0 / a pair of 1x1 contents with equal image id / the same bytes in another shape) realised as 1-4 Images (owned, Image::new, crop, view, strided + column-major from_parts, transposed; several Images may share a content with different Arcs; in 30% of the cases all non-empty images are windows cropped out of one backing Image object, in half of those only after that picture has itself been drawn on the handler, in 40% of them as full-width row ranges of the picture; contents of equal shape and different pixels are forced in 10% of the cases), 1-3 positions below 65536 biased to (0,0), row 0, column 0 and 65535, and a history of 1-15 events Draw / Erase(at|all) / response(OK|error, for a drawn image with a placement id the handler used, or arbitrary numbers) on one KittyImageHandler (plain or quiet). \
          Every output is scanned (APC, ESC 7/8, CUP), every graphics command is parsed and executed on a kitty reference model; checked: key syntax, id range, chunk length <=4096 and multiple of 4, m flags, continuation chunks carry only m/q, RFC 4648 decode = w*h*4 bytes = row-major RGBA, s/v = image size, f=32, content transmitted at most once unless an error response invalidated its id, every a=p names an id whose data the terminal holds and whose data is the drawn image, draw of a non-empty image creates a placement, placements re-created in answer to an error response carry the placement id the response named and sit at the cell of the original draw, erase-at deletes exactly the placements made by drawing that content at that cell (p=0/absent = all placements of the image). \
          non-trivial = a draw served from the transmit cache, or an erase-at with sibling placements of the same image, or an error response for an id the handler used".into()
     }
